@@ -536,6 +536,8 @@ func runC14(c *gen.Ctx) error {
 			e.Count("random")
 		}
 	}
+	// (h) TracingHandler behind real HTTP/1.1 and HTTP/2 servers; handlers that io.Copy / ReadFrom / Flush
+	c14ServeCases(c)
 	// (g) streams traced at the HTTP/2 connection level (emitUnfinished once or twice, ends in any order)
 	c14H2Cases(c)
 	// (f) bodies of 4 GiB and more (never written down: the same zeroed array again and again)
